@@ -5,7 +5,7 @@ schedule quantities; TLC checks the schedule facts on every generated configurat
 seeded simulation over the product space — each with the verdict and FRI schedule the specification
 predicts. The harness builds the AIR (GenAir), the honest trace, proves with the real prover, serialises,
 deserialises and verifies with the real verifier accepting the proof's own options."""
-import json, os
+import json, os, re
 import vf, starklib
 
 META = dict(
@@ -34,8 +34,9 @@ def judge(ck, name, cases, results):
         if not ok:
             bad += 1
             loc = ""
-            if isinstance(detail, str) and detail.startswith("/repo/"):
-                loc = " @" + detail.split(": ")[0].replace("/repo/", "")
+            m = re.match(r"^/\S*?/((?:air|prover|verifier|fri|math|crypto|utils|winterfell|examples)/\S+?:\d+)", detail) if isinstance(detail, str) else None
+            if m:
+                loc = " @" + m.group(1)
             elif isinstance(detail, str) and detail:
                 loc = " " + detail.split("(")[0][:60]
             sig = "C01 honest run%s %s%s" % (" (degenerate constant-column trace)" if name == "degenerate" else "", what, loc)
